@@ -10,6 +10,16 @@ NOTE_COMMON = ("Trusted: Verus 0.2026.09.13 + Z3; the extractor's logged rewrite
                "std/serde_json stand-ins listed in evidence.coverage.trusted_base (external_body / assume_specification / uninterp); ")
 
 CLAIMED = {
+    "C11": {
+        "text": "Proof, for the DUPLICATE-DETECTION / MIRRORING SLICE of the property only: IDL::from_token, for every member list the grammar can hand it, records the member names "
+                "of each kind in order of appearance, keys each map by exactly those names, puts a message naming every name that is defined twice (within or across methods, types "
+                "and errors) into the error set, and leaves the error set empty exactly when all member names are pairwise distinct; IDL::try_from returns Ok exactly when the grammar "
+                "accepts the text and that error set is empty, Err(Idl) when it is not, Err(Parse) when the grammar rejects. NOT claimed: which texts the peg grammar accepts "
+                "(interface-name rule, type expressions, trivia) and the mirroring of fields, types and documentation inside members -- the peg::parser! expansion is outside the verifier's reach.",
+        "note": NOTE_COMMON + "ParseInterface (the generated parser) is an uninterpreted partial function of the text, assumed to call from_token with the members in source order; BTreeMap/HashSet/Vec::contains/format! "
+                "are stand-ins; seeded changes to the grammar itself will not be detected by this check.",
+        "ref": "5-C11",
+    },
     "C16": {
         "text": "Proof, for the ADDRESS-FORM SLICE of the property only: varlink_connect (client) and Listener::new (server, activated or not) return InvalidAddress for every "
                 "address that starts with neither `tcp:` nor `unix:`, succeed only for those schemes, and cut `;parameters` off before connecting / binding; "
@@ -97,7 +107,6 @@ NOT_APPLICABLE = {
     "C08": "quantifies over every program the generator can emit; the behaviour lives in quote! templates and serde_derive output, not in functions a contract can be attached to (DESIGN.md section 7)",
     "C09": "'the emitted Rust compiles' is rustc's type checker applied to an unbounded family of outputs; panic sites are inside syn::parse_str (DESIGN.md section 7)",
     "C10": "relates the format!/String layout printer to the peg-generated parser; Verus has no str/format! reasoning and Kani exhausts memory on format! (DESIGN.md section 7)",
-    "C11": "the accepted language is defined by the peg::parser! macro expansion (Verus cannot ingest it; Kani did not finish on 4 symbolic bytes); the from_token duplicate-detection slice was not built",
     "C12": "totality of the macro-generated recursive-descent parser over arbitrary Unicode and nesting; no function-level contract within the verifier's reach (DESIGN.md section 7)",
     "C13": "quantifies over thread schedules and timing of 2..64 OS connections; the installed Verus has no thread model and Kani has no threads (DESIGN.md section 7)",
     "C18": "relation between two process executions (stdio of `varlink bridge`, epoll close-watching, child processes); no contract can express process exit status",
